@@ -12,6 +12,9 @@ every rule:
       propagated into that use (`_bad = a >= n` / `if _bad: raise`,
       `_ret = f(x)` / `return _ret`);
 
+  C4  a local that merely renames a never-rebound parameter (`q = p`) is
+      replaced by the parameter.
+
 Nodes keep the source positions of the statement they came from, so reports
 still point at real lines.  The transformation never adds behaviour: every
 rewritten form is equivalent for all inputs (C2 changes evaluation order only
@@ -247,8 +250,66 @@ def _fold_if_assign(fnode):
     fnode.body = rewrite(fnode.body)
 
 
+def _drop_param_aliases(fnode):
+    """C4: `q = p` where p is a parameter that is never re-bound and q is
+    bound exactly once: every read of q becomes a read of p and the
+    assignment goes away."""
+    params = {a.arg for a in ast.walk(fnode.args) if isinstance(a, ast.arg)}
+    stores = {}
+    declared = set()
+    for n in ast.walk(fnode):
+        if isinstance(n, ast.Name) and isinstance(n.ctx, (ast.Store, ast.Del)):
+            stores[n.id] = stores.get(n.id, 0) + 1
+        elif isinstance(n, (ast.Global, ast.Nonlocal)):
+            declared |= set(n.names)
+        elif isinstance(n, ast.arg) and n.arg not in params:
+            stores[n.arg] = stores.get(n.arg, 0) + 2
+    # nested functions' own parameters shadow: leave those names alone
+    nested_params = set()
+    for n in ast.walk(fnode):
+        if n is not fnode and isinstance(n, (ast.FunctionDef, ast.Lambda,
+                                             ast.AsyncFunctionDef)):
+            for x in ast.walk(n.args):
+                if isinstance(x, ast.arg):
+                    nested_params.add(x.arg)
+    loads = {}
+    for n in ast.walk(fnode):
+        if isinstance(n, ast.Name) and isinstance(n.ctx, ast.Load):
+            loads[n.id] = loads.get(n.id, 0) + 1
+    table = {}
+    keep = []
+    seen = set()
+    for st in fnode.body:
+        if isinstance(st, ast.Assign) and len(st.targets) == 1 and \
+                isinstance(st.targets[0], ast.Name) and \
+                isinstance(st.value, ast.Name):
+            q, p_ = st.targets[0].id, st.value.id
+            plain = p_ in params and stores.get(p_, 0) == 0 and \
+                q not in params and q not in declared and \
+                q not in nested_params and p_ not in nested_params and \
+                q not in seen and q not in table.values()
+            # (a) q is bound only here, or (b) the parameter is not used
+            # again, so q simply takes over its role (and may be re-bound)
+            if plain and (stores.get(q, 0) == 1 or loads.get(p_, 0) == 1):
+                table[q] = p_
+                continue
+        for n in ast.walk(st):
+            if isinstance(n, ast.Name):
+                seen.add(n.id)
+        keep.append(st)
+    if not table:
+        return
+    fnode.body = keep or [ast.Pass()]
+    for n in ast.walk(fnode):
+        if isinstance(n, ast.Name) and n.id in table:
+            n.id = table[n.id]
+
+
 def canonicalise(tree):
     _subst_consts(tree)
+    for n in ast.walk(tree):
+        if isinstance(n, (ast.FunctionDef, ast.AsyncFunctionDef)):
+            _drop_param_aliases(n)
     for n in ast.walk(tree):
         if isinstance(n, (ast.FunctionDef, ast.AsyncFunctionDef)):
             _propagate_temps(n)
